@@ -549,7 +549,9 @@ Fixpoint fcgi_stdin_loop (fuel : nat) (rid : N) (need : nat) (acc : bytes) (s : 
                 | c =>
                     if Nat.leb (length c) need
                     then fcgi_stdin_loop f rid (need - length c) (acc ++ c) s'
-                    else Some None    (* more data than declared: see docs/C01.md (model restricts to exact) *)
+                    else fcgi_stdin_loop f rid 0 (acc ++ firstn need c) s'
+                         (* more data than declared: async_read_some hands out only the declared number of bytes, the
+                            rest of the record stays in body_ and the end-of-stream record is expected next *)
                 end
             end
       end
